@@ -31,6 +31,8 @@ type c09Hash struct {
 	Mode int      `json:"mode"`
 	In   []string `json:"in"` // possibly non-canonical inputs (value + k*p)
 	M    int      `json:"m"`  // 0: HashNoPad (reduces inputs, 4 outputs); >0: HashNToMNoPad(canonical inputs, m)
+	// Lens: HashNoPad applied in one circuit to the prefixes In[:l] of one backing array, in this order
+	Lens []int `json:"prefix_lengths,omitempty"`
 }
 type c09Inject struct {
 	State []uint64  `json:"state"`
@@ -122,7 +124,7 @@ func TestC09(t *testing.T) {
 	compiledEvery = 80 // a compiled Poseidon permutation costs ~1 s
 	r := s.r
 	defer r.Flush()
-	r.Rule("permutation: 12-element states (all-equal edge values incl. 0 and p-1, single-hot edge values, random/edge mixtures) vs the naive reference permutation; HashNoPad on inputs of length 0..40 whose elements are canonical or value+k*p (k up to 2^60; inputs are reduced first) vs the reference sponge on the residues; HashNToMNoPad with 1..20 outputs; the extension-field layer helpers composed as in the Poseidon gate vs the reference fast schedule over GF(p^2); uniqueness: every dynamic hint call of one permutation (1650) substituted by generated dishonest tuples must be rejected.  Non-trivial = state not all-zero / input length >= 1 / substituted tuple differs; distinct = inputs (+ hint index, strategy).")
+	r.Rule("permutation: 12-element states (all-equal edge values incl. 0 and p-1, single-hot edge values, random/edge mixtures) vs the naive reference permutation; HashNoPad on inputs of length 0..40 whose elements are canonical or value+k*p (k up to 2^60; inputs are reduced first) vs the reference sponge on the residues; HashNToMNoPad with 1..20 outputs; HashNoPad applied 2-3 times in one circuit to prefixes of one (partly non-canonical) vector held in one backing array - the caller's values must stay what they were; the extension-field layer helpers composed as in the Poseidon gate vs the reference fast schedule over GF(p^2); uniqueness: every dynamic hint call of one permutation (1650) substituted by generated dishonest tuples must be rejected.  Non-trivial = state not all-zero / input length >= 1 / substituted tuple differs; distinct = inputs (+ hint index, strategy).")
 	r.Assume("ref naive Poseidon reproduces plonky2's published all-zero vector and is what accepted the 5 real proofs", "engine semantics (C06)")
 
 	s.on("perm", func(b json.RawMessage) caseResult {
@@ -139,6 +141,35 @@ func TestC09(t *testing.T) {
 		}
 		cr.Trivial = !nz
 		return cr
+	})
+	s.on("prefixes", func(b json.RawMessage) caseResult {
+		a := unmarshal[c09Hash](b)
+		in := unstrs(a.In)
+		res := make([]ref.F, len(in))
+		for i, x := range in {
+			res[i] = ref.FromBig(x)
+		}
+		var want []*big.Int
+		for _, l := range a.Lens {
+			h := ref.HashNoPadGL(res[:l])
+			want = append(want, u64s(h[:])...)
+		}
+		fn := func(api frontend.API, v []frontend.Variable) []frontend.Variable {
+			c := poseidon.NewGoldilocksChip(api)
+			xs := make([]gl.Variable, len(v))
+			for i := range v {
+				xs[i] = glv(v[i])
+			}
+			var o []frontend.Variable
+			for _, l := range a.Lens {
+				h := c.HashNoPad(xs[:l])
+				for i := range h {
+					o = append(o, h[i].Limb)
+				}
+			}
+			return o
+		}
+		return expectOutputsEng(fmt.Sprintf("HashNoPad on prefixes %v of one vector", a.Lens), eng.Mode(a.Mode), in, fn, want)
 	})
 	s.on("hash", func(b json.RawMessage) caseResult {
 		a := unmarshal[c09Hash](b)
@@ -229,6 +260,9 @@ func TestC09(t *testing.T) {
 			if m == 0 && rapid.IntRange(0, 3).Draw(rt, "noncanon") == 0 {
 				k := genBigBelow(pow2(60)).Draw(rt, "k")
 				k.Add(k, big.NewInt(1))
+				if rapid.IntRange(0, 2).Draw(rt, "smallk") == 0 {
+					k = big.NewInt(int64(rapid.IntRange(1, 3).Draw(rt, "k123"))) // residue + p may still fit 64 bits
+				}
 				x.Add(x, k.Mul(k, bigP))
 				nonc = true
 			}
@@ -240,7 +274,23 @@ func TestC09(t *testing.T) {
 		} else if nonc {
 			class += "/noncanonical-inputs"
 		}
-		s.exec(rt, "hash", c09Hash{int(genMode().Draw(rt, "mode")), in, m}, class)
+		s.exec(rt, "hash", c09Hash{Mode: int(genMode().Draw(rt, "mode")), In: in, M: m}, class)
+	})
+	rapidCheck(t, "prefixes", tierN(120, 3000), func(rt *rapid.T) {
+		n := rapid.IntRange(2, 20).Draw(rt, "len")
+		in := make([]string, n)
+		for i := range in {
+			x := bu(genGL().Draw(rt, "x"))
+			if rapid.IntRange(0, 3).Draw(rt, "noncanon") == 0 {
+				x.Add(x, new(big.Int).Mul(bigP, big.NewInt(int64(rapid.IntRange(1, 3).Draw(rt, "k")))))
+			}
+			in[i] = x.String()
+		}
+		lens := make([]int, rapid.IntRange(2, 3).Draw(rt, "calls"))
+		for i := range lens {
+			lens[i] = rapid.IntRange(0, n).Draw(rt, "prefix")
+		}
+		s.exec(rt, "prefixes", c09Hash{Mode: int(genMode().Draw(rt, "mode")), In: in, Lens: lens}, "hash/prefixes-of-one-vector")
 	})
 	rapidCheck(t, "ext", tierN(150, 4000), func(rt *rapid.T) {
 		st := make([][2]uint64, 12)
